@@ -239,7 +239,8 @@ def var_records(out, cpu, kind):
     elif kind == "grav":
         R = [rec("i", [ncpu]), rec("i", [nvar]), rec("i", [lm]), rec("i", [nb])]
     else:
-        R = [rec("i", [ncpu]), rec("i", [nvar]), rec("i", [ndim]), rec("i", [lm]), rec("i", [nb]), rec("d", [out["gamma"]])]
+        # sixth record of the rt header: any double that differs from the hydro gamma (keeps files of different kinds distinct)
+        R = [rec("i", [ncpu]), rec("i", [nvar]), rec("i", [ndim]), rec("i", [lm]), rec("i", [nb]), rec("d", [out["gamma"] + Fraction(1, 4)])]
     for l in range(1, lm + 1):
         for d in range(1, ncpu + nb + 1):
             lst = [octs[i] for i in held["%d,%d" % (l, d)]]
